@@ -84,6 +84,21 @@ def rule_sd1(ctx: Ctx) -> RuleResult:
                             if leak:
                                 break
                         # seed() is for factories, deepcopy(seed) for values: the 'callable' test decides which
+                        seeded = [x for x in p.trace if (x.k == "ucall" and x.name == "seed" and not x.args)
+                                  or (x.k == "call" and x.func == ("glob", "copy.deepcopy") and x.args and x.args[0][0] == "param" and x.args[0][1] == "seed")]
+                        tested = False
+                        for e in p.trace:
+                            if e.k == "decision":
+                                t0 = e.test
+                                while t0[0] == "not":
+                                    t0 = t0[1]
+                                if t0[0] == "call" and t0[1] == ("builtin", "callable") and len(t0[2]) == 1 and t0[2][0][0] == "param":
+                                    tested = True
+                        if seeded:
+                            r.ob(tested, lambda kind=kind, cfg=cfg, p=p, seeded=seeded: mk_finding(
+                                "SD-1", spec, kind, cfg, p,
+                                "%s without a callable(seed) test on this path: whether the seed is a factory or a value is not looked at, so one of the two "
+                                "kinds of seed is handled as the other" % seeded[0].brief(), node=seeded[0].node, extra="untested"))
                         for e in p.trace:
                             if e.k != "decision":
                                 continue
